@@ -793,8 +793,14 @@ impl Paragraph {
             );
         }
 
+        // a trailing comment that was the unterminated last line of the input gets its
+        // newline: the paragraph may no longer be the last one
+        let unterminated = current.last().map_or(false, |c| c.kind() != NEWLINE);
         for c in current {
             builder.token(c.kind().into(), c.as_token().unwrap().text());
+        }
+        if unterminated {
+            builder.token(NEWLINE.into(), "\n");
         }
 
         builder.finish_node();
